@@ -19,7 +19,7 @@ LEVEL_TEXT = ("seeded search over call histories (chunk splits, interleavings be
               "(every block the histories produce), not the exhaustive table check the property text also mentions")
 LEVEL_NOTE = ("claimed for the history- and stream-dependent clauses; RefAES validated against FIPS-197 App. C and "
               "SP 800-38A vectors and the openssl binary; calls the API rejects (wrong length for block modes) are no demand")
-RUNS = {"quick": 4000, "thorough": 300000}
+RUNS = {"quick": 4000, "thorough": 200000}
 OPTIMIZED_PASS = {"quick": 250, "thorough": 6000}   # extra runs under PYTHONOPTIMIZE=1 (assert statements removed)
 RULE = ("per run a history of 6-40 operations: create mode (ECB/CBC/CFB-s/OFB/CTR incl. counter wrap, key 16/24/32), "
         "direct mode calls, Encrypter/Decrypter feed with chunk sizes 0-100 and finish, stream pumps with read sizes 1..n "
